@@ -4,6 +4,9 @@
 must stay silent (exit 0, same known findings) on behaviour-preserving edits:
   N1  every Python source re-emitted through ast.unparse (layout, quoting, parenthesisation, comments and line numbers all
       change; the program does not)
+  N2  every function-local variable that no nested scope captures renamed (tools/rename_locals.py): rules must recognise values by
+      what they are (definition, position, role in a call), not by the name of the local that holds them; finding keys must not
+      contain local names
 must fire (exit 1, VIOLATION) on variants that break the property while still compiling:
   S*  every change kept under /verif/seeded/<ID>_*/ that names this property in `caught_by`
   F*  the repository's own `fix:` commits for this property applied in reverse (from known_findings.txt `fixed:` lines)
@@ -126,6 +129,20 @@ def run_for(prop: str) -> int:
         results.append({"variant": "N1:ast.unparse-normalised sources", "files": nfiles, "expected": "silent, same known findings", "exit": rc, "ok": ok})
         if not ok:
             failures.append(f"N1 (behaviour-preserving re-formatting of {nfiles} files): exit {rc}; " + ("; ".join(v[:2]) if v else f"known findings differ: {sorted(set(k) ^ set(k0))[:2]}"))
+        # N2
+        n2root = base / "n2"
+        n2root.mkdir()
+        _copy_tree(n2root)
+        rr = subprocess.run([PY, str(VERIF / "tools" / "rename_locals.py"), str(n2root)], capture_output=True, text=True, timeout=600)
+        nren = int((rr.stdout.strip().splitlines() or ["0"])[-1]) if rr.returncode == 0 and (rr.stdout.strip().splitlines() or ["x"])[-1].isdigit() else -1
+        if nren <= 0:
+            failures.append(f"N2: tools/rename_locals.py failed on the scratch copy: {rr.stderr[-200:]}")
+        else:
+            rc, v, k = _run_check(prop, n2root)
+            ok = rc == 0 and k == k0
+            results.append({"variant": "N2:function-local variables renamed", "renamed": nren, "expected": "silent, same known findings", "exit": rc, "ok": ok})
+            if not ok:
+                failures.append(f"N2 (behaviour-preserving renaming of {nren} function-local variables): exit {rc}; " + ("; ".join(x[:200] for x in v[:2]) if v else f"known findings differ: {sorted(set(k) ^ set(k0))[:2]}"))
         # S*/F*
         vars_ = _variants(prop)
 
@@ -151,7 +168,7 @@ def run_for(prop: str) -> int:
         shutil.rmtree(base, ignore_errors=True)
     fired = sum(1 for r in results if r.get("expected") == "VIOLATION" and r["ok"])
     skipped = sum(1 for r in results if "skipped" in r)
-    print(f"SELFTEST {prop}: neutral variants silent={sum(1 for r in results if str(r['variant']).startswith('N') and r['ok'])}/1, "
+    print(f"SELFTEST {prop}: neutral variants silent={sum(1 for r in results if str(r['variant']).startswith('N') and r['ok'])}/{sum(1 for r in results if str(r['variant']).startswith('N'))}, "
           f"breaking variants caught={fired}/{sum(1 for r in results if r.get('expected') == 'VIOLATION')}, skipped={skipped}")
     for r in results:
         print(f"   {r['variant']}: " + (f"skipped ({r['skipped']})" if "skipped" in r else f"exit {r['exit']} ({'as expected' if r['ok'] else 'UNEXPECTED'})"))
